@@ -7,7 +7,8 @@ import props as P
 hooks = subprocess.run(["git", "-C", "/repo", "log", "--format=%H %s", "--reverse"], capture_output=True, text=True).stdout.splitlines()
 hook_commits = [l for l in hooks if " verif hooks:" in l]
 checks = []
-for pid in sorted(P.PROPS):
+READY = [p for p in sorted(P.PROPS) if P.PROPS[p].get("ready", True)]
+for pid in READY:
     s = P.PROPS[pid]
     checks.append({
         "property_id": pid,
@@ -20,10 +21,10 @@ for pid in sorted(P.PROPS):
         "level_note": "; ".join(s.get("assumptions", []) + s.get("trusted_base", [])) or "see evidence",
         "technique": s.get("technique", "Kani function contracts / full-domain symbolic harnesses on the real crate (CBMC)"),
     })
-NA = {k: v for k, v in P.NOT_APPLICABLE.items() if k not in P.PROPS}
+NA = {k: v for k, v in P.NOT_APPLICABLE.items() if k not in READY}
 for line in open(os.path.join(V, "properties.jsonl")):
     pid = json.loads(line)["id"]
-    if pid not in P.PROPS and pid not in NA:
+    if pid not in READY and pid not in NA:
         NA[pid] = "not claimed yet: the check planned in DESIGN.md section 5 has not been built/validated at this commit"
 m = {
     "version": 1,
@@ -36,9 +37,9 @@ m = {
         "add_only": True,
     },
     "engines": [
-        {"name": "kani", "path": "/verif/kani", "serves_properties": [p for p in sorted(P.PROPS) if P.PROPS[p].get("kani")],
+        {"name": "kani", "path": "/verif/kani", "serves_properties": [p for p in READY if P.PROPS[p].get("kani")],
          "kind_free_text": "Kani 0.68 function contracts (in place, cfg(kani)) and full-domain symbolic proof harnesses over the real mmtk crate, discharged by CBMC 6.11"},
-        {"name": "verus", "path": "/verif/verus", "serves_properties": [p for p in sorted(P.PROPS) if P.PROPS[p].get("verus")],
+        {"name": "verus", "path": "/verif/verus", "serves_properties": [p for p in READY if P.PROPS[p].get("verus")],
          "kind_free_text": "Verus 0.2026.09.13 on items mechanically extracted from /repo on every run (requires/ensures/invariants spliced in)"},
     ],
     "checks": checks,
